@@ -6,11 +6,13 @@ use cel_interpreter::Program;
 use serde_json::json;
 
 /// One spelling per token kind of CEL.g4 plus the "broken" lexemes of the statement.
-pub const LEXEMES: [&str; 50] = [
+pub const LEXEMES: [&str; 56] = [
     "==", "!=", "in", "<", "<=", ">=", ">", "&&", "||", "[", "]", "{", "}", "(", ")", ".", ",", "-", "!", "?", ":", "+", "*", "/", "%", "true",
     "false", "null", "1", "1u", "1.5", "0x1F", "'s'", "b's'", "r's'", "\"\"\"t\"\"\"", "a", "inx", "`e`", "// c\n", "\n",
     // broken lexemes
     "'abc", "@", "|", "\u{e4}", "&", "=", "\\", "\"", "1e",
+    // unknown characters that Unicode (but not CEL) counts as white space or ignorable
+    "\u{a0}", "\u{b}", "\u{2028}", "\u{3000}", "\u{feff}", "\u{85}",
 ];
 /// sub-alphabet for the longer sequences: one representative per syntactic role
 pub const CORE: [&str; 16] = ["a", "1", "(", ")", "[", "]", "{", "}", ".", ",", "-", "!", "?", ":", "+", "&&"];
